@@ -38,6 +38,9 @@ def catalogue():
         for e in entries:
             groups.setdefault(e.target, []).append(e)
         _CAT['groups'] = groups
+        # callables with more parameters have a larger argument space: give them more calls
+        _CAT['weights'] = {e.key: 1.0 + 3.0 * min(4, sum(len(t) for t in e.templates))
+                           for e in entries}
     return _CAT
 
 
@@ -227,12 +230,14 @@ class World:
         return None
 
     # ------------------------------------------------------------------ frame check
-    def _frame_check(self, temps, temp_snaps, exempt_ids, call_desc, argvals, outcome):
+    def _frame_check(self, temps, temp_snaps, exempt_ids, call_desc, argvals, outcome,
+                     exempt_arrays=()):
         for idx, h in enumerate(self.heap):
             new = values.snapshot(h.value)
             if new == h.snap:
                 continue
-            if exempt_ids and (values.reach_ids(h.value) & exempt_ids):
+            if (exempt_ids and (values.reach_ids(h.value) & exempt_ids)) or \
+                    (exempt_arrays and _shares(h.value, exempt_arrays)):
                 h.snap = new
                 h.kind = values.classify(h.value)
                 h.n = _length(h.value)
@@ -257,7 +262,8 @@ class World:
         for (role, v), old in zip(temps, temp_snaps):
             new = values.snapshot(v)
             if new != old:
-                if exempt_ids and (values.reach_ids(v) & exempt_ids):
+                if (exempt_ids and (values.reach_ids(v) & exempt_ids)) or \
+                        (exempt_arrays and _shares(v, exempt_arrays)):
                     continue
                 self.fail('frame', call=call_desc, outcome=outcome, changed='fresh argument', role=role,
                           kind=values.classify(v), where=values.diff_path(old, new),
@@ -331,7 +337,14 @@ class World:
             d = getattr(recv, 'data', None)
             if isinstance(d, list):
                 exempt.add(id(d))
-        elif how == 'iop' and args and is_sm_object(args[0]):
+        exempt_arrays = ()
+        if how == 'iop' and args and is_sm_object(args[0]):
+            # the left operand of an augmented operator may be updated in place (the twist,
+            # Plucker and spatial-vector classes inherit UserList's in-place *= and +=, which
+            # repeat / extend the value list); values that reach that same list change with it.
+            # Values that merely share an element *array* with it are not exempt: no augmented
+            # operator of the library writes into arrays, and one that did would also change a
+            # right operand that is a copy of the left one.
             exempt = {id(args[0])}
             d = getattr(args[0], 'data', None)
             if isinstance(d, list):
@@ -349,7 +362,7 @@ class World:
                 (type(res).__name__, str(res)[:150], rec.get('args'), rec.get('kwargs')))
         if outcome == 'raise':
             self.probe('p_exception_path')
-        self._frame_check(temps, temp_snaps, exempt, key, argvals, tag)
+        self._frame_check(temps, temp_snaps, exempt, key, argvals, tag, exempt_arrays)
 
         out = {'r': tag}
         rsnap = None
@@ -364,6 +377,13 @@ class World:
             self._note_aliasing(res, argvals)
             if rec.get('push'):
                 self._push_result(res)
+        # objects the library let into a malformed state (value list replaced by an array, a list
+        # containing itself, ... -- only reachable through arguments of the wrong kind) are not
+        # fed to further calls: what happens to them is not C17's business
+        bad = [h for h in self.heap if _malformed(h.value)]
+        if bad:
+            self.probe('harness_evicted_malformed_objects', len(bad))
+            self.heap = [h for h in self.heap if not _malformed(h.value)]
         if rec.get('keep_args'):
             for role, v in temps:
                 if isinstance(v, np.ndarray) and v.size <= HEAP_MAX_ARRAY and \
@@ -373,6 +393,7 @@ class World:
             inputs = {'recv': recv, 'args': args, 'kwargs': kwargs}
             self.history.append({'rec': rec, 'inputs': inputs,
                                  'insnap': values.snapshot([recv, args, kwargs]),
+                                 'inident': _identity_outline((recv, args, kwargs)),
                                  'tag': tag, 'rsnap': rsnap, 'step': self.step_no,
                                  'res': res if outcome == 'ok' else None})
             if len(self.history) > HISTORY:
@@ -403,7 +424,7 @@ class World:
                 if x.size == 0 or x.size > HEAP_MAX_ARRAY or x.dtype.kind not in 'fiub':
                     continue
             elif is_sm_object(x):
-                if _length(x) > 12:
+                if _length(x) > 12 or _malformed(x):
                     continue
             else:
                 continue
@@ -417,6 +438,11 @@ class World:
         if values.snapshot([ent['inputs']['recv'], ent['inputs']['args'], ent['inputs']['kwargs']]) \
                 != ent['insnap']:
             return 'stale'      # an input was legitimately mutated since: not 'equal inputs' any more
+        now = _identity_outline((ent['inputs']['recv'], ent['inputs']['args'], ent['inputs']['kwargs']))
+        if len(now) != len(ent['inident']) or any(a is not b for a, b in zip(now, ent['inident'])):
+            # same values but a different aliasing structure (an element array was replaced by an
+            # equal one, two operands now share an array, ...): not the same inputs either
+            return 'stale'
         inp = ent['inputs']
         if use_copy:
             leaves = values.array_leaves([inp['recv'], inp['args'], list(inp['kwargs'].values())])
@@ -478,13 +504,57 @@ class World:
         return done
 
     def op_reorder(self, rec):
+        """Re-issue every remembered call in reverse order; with poke, the caller first writes
+        into the value that call returned."""
         n = 0
+        poke = bool(rec.get('poke'))
         for ent in reversed(list(self.history)):
             self.cur_op = 'reorder:' + ent['rec']['key']
+            poked = poke and ent['tag'] == 'ok' and self._poke(ent['res'])
             if self._reissue(ent, False, 'reorder') == 'same':
                 n += 1
+                if poked:
+                    self.probe('f_redeliver_after_caller_wrote_into_result')
         self.probe('f_reorder_calls', n)
         return {'r': 'ok', 'n': n}
+
+
+def _malformed(v):
+    if not is_sm_object(v) or not hasattr(v, 'data'):
+        return False
+    d = v.data
+    return not isinstance(d, list) or any(not isinstance(a, np.ndarray) for a in d)
+
+
+def _shares(v, arrays):
+    for a in values.array_leaves(v):
+        for b in arrays:
+            if a is b or (a.size and b.size and np.shares_memory(a, b)):
+                return True
+    return False
+
+
+def _identity_outline(v, depth=0):
+    """The mutable objects a value is made of, in traversal order (kept alive by the caller)."""
+    out = []
+    if depth > 6:
+        return out
+    if isinstance(v, np.ndarray):
+        out.append(v)
+    elif isinstance(v, (list, tuple)):
+        if isinstance(v, list):
+            out.append(v)
+        for x in v:
+            out.extend(_identity_outline(x, depth + 1))
+    elif isinstance(v, dict):
+        for x in v.values():
+            out.extend(_identity_outline(x, depth + 1))
+    elif is_sm_object(v):
+        out.append(v)
+        for k2 in sorted(getattr(v, '__dict__', {})):
+            if not k2.startswith('_'):
+                out.extend(_identity_outline(v.__dict__[k2], depth + 1))
+    return out
 
 
 def _shape_of(a):
@@ -533,19 +603,25 @@ class NeedObject(Exception):
 def gen_config(rng):
     C = catalogue()
     cls = list(C['classes'])
-    focus = rng.choice(['base', 'base', 'class', 'class', 'ops', 'mixed', 'mixed'])
+    focus = rng.choice(['base', 'base', 'class', 'class', 'ops', 'mixed', 'mixed', 'deep', 'deep'])
+    rich = [e.key for e in C['entries'] if sum(len(t) for t in e.templates) >= 2]
     return {
         'focus': focus,
+        'deep': rng.sample(rich, rng.choice([1, 2])),
+        'weighted': rng.random() < 0.7,
         'classes': rng.sample(cls, rng.choice([1, 2, 3])),
         'fault_rate': rng.choice([0.0, 0.0, 0.1, 0.25]),
         'steps': rng.choice([3, 5, 8, 12, 16, 24, 32, 40]),
         'heap_cap': rng.choice([6, 12, 24]),
-        'redeliver_rate': rng.choice([0.0, 0.1, 0.2]),
-        'reorder': rng.random() < 0.5,
+        'redeliver_rate': rng.choice([0.0, 0.1, 0.25]),
+        'final_passes': rng.choice([[], [{'op': 'reorder'}], [{'op': 'reorder', 'poke': True}],
+                                    [{'op': 'reorder'}, {'op': 'reorder', 'poke': True}],
+                                    [{'op': 'reorder'}, {'op': 'reorder', 'poke': True}]]),
         'heap_ref_rate': rng.choice([0.2, 0.5, 0.8]),
         'plain_forms': rng.random() < 0.3,
         'multi_rate': rng.choice([0.1, 0.4]),
-        'poke_rate': rng.choice([0.0, 0.0, 0.3]),
+        'poke_rate': rng.choice([0.0, 0.5, 0.5]),
+        'opt_rate': rng.choice([0.15, 0.4, 0.85]),
     }
 
 
@@ -671,7 +747,7 @@ def gen_call(entry, world, cfg, rng, recv_ref=None, multi=False):
     args, kwargs = [], {}
     positional = True
     for (pname, optional, kinds) in tmpl:
-        if optional and rng.random() > 0.3:
+        if optional and rng.random() > (0.5 if cfg.get('focus') == 'deep' else cfg.get('opt_rate', 0.3)):
             positional = False
             continue
         ks = kinds
@@ -745,12 +821,18 @@ def gen_ctor(cname, world, cfg, rng, multi=False, depth=0):
             'args': [], 'push': True}
 
 
+def _wchoice(rng, group):
+    W = catalogue()['weights']
+    return core.weighted_choice(rng, [(e, W[e.key]) for e in group])
+
+
 def choose_entry(world, cfg, rng):
     C = catalogue()
     f = cfg['focus']
     r = rng.random()
+    pick = _wchoice if cfg.get('weighted', True) else (lambda g_rng, group: g_rng.choice(group))
     if f == 'base' and r < 0.8:
-        return rng.choice(C['groups']['base'])
+        return pick(rng, C['groups']['base'])
     if f in ('class', 'ops') and r < 0.85:
         cname = rng.choice(cfg['classes'])
         group = C['groups'][cname]
@@ -758,15 +840,18 @@ def choose_entry(world, cfg, rng):
             g2 = [e for e in group if e.how in ('op', 'iop')]
             if g2 and rng.random() < 0.8:
                 return rng.choice(g2)
-        return rng.choice(group)
-    return rng.choice(C['entries'])
+        return pick(rng, group)
+    if f == 'deep' and r < 0.65:
+        return C['by_key'][rng.choice(cfg['deep'])]
+    return pick(rng, C['entries'])
 
 
 def gen_step(world, cfg, rng):
     if len(world.heap) > cfg['heap_cap']:
         return {'op': 'drop', 'x': rng.randrange(len(world.heap))}
     if world.history and rng.random() < cfg['redeliver_rate']:
-        return {'op': 'redeliver', 'back': rng.randint(1, 15), 'copy': rng.random() < 0.5,
+        return {'op': 'redeliver', 'back': rng.choice([1, 1, 1, 1, 2, 2, 3, 5, 8, 15]),
+                'copy': rng.random() < 0.5,
                 'poke': rng.random() < cfg['poke_rate']}
     entry = choose_entry(world, cfg, rng)
     try:
@@ -788,8 +873,8 @@ def generate_and_run(seed, stats=None, cfg_override=None):
             rec = gen_step(world, cfg, rng)
             ops.append(rec)
             log.append(world.step(rec))
-        if cfg['reorder']:
-            rec = {'op': 'reorder'}
+        for rec in cfg['final_passes']:
+            rec = dict(rec)
             ops.append(rec)
             log.append(world.step(rec))
     except core.Violation as v:
@@ -851,6 +936,8 @@ def simplify(rec):
         if rec.get('back', 1) != 1:
             out.append(dict(rec, back=1))
         return out
+    if rec.get('op') == 'reorder' and rec.get('poke'):
+        return [dict(rec, poke=False)]
     if rec.get('op') != 'call':
         return out
     for key in ('keep_args', 'fault'):
@@ -907,6 +994,9 @@ ASSUMPTIONS = [
     'even on identical inputs, so bit identity of outputs cannot be demanded)',
     'sampling, not proof',
 ]
+MUST_FIRE = ['redeliver', 'reorder_calls', 'redeliver_after_caller_wrote_into_result',
+             'redelivered_on_copies', 'exception_path', 'alias_exemption_used',
+             'multi_valued_receiver', 'operand_is_view', 'result_shares_memory']
 PROBES = ['result_is_operand', 'result_shares_memory', 'operand_was_earlier_result',
           'operand_is_view', 'operand_fortran_order', 'integer_dtype_operand',
           'multi_valued_receiver', 'exception_path', 'alias_exemption_used', 'operand_is_receiver',
@@ -938,4 +1028,5 @@ def summarise(js, raw):
         'call_outcome_pairs': shapes,
         'call_shapes': js.get('call_shapes', 0),
         'harness_call_guard_fired': js.get('harness_call_guard_fired', 0),
+        'harness_evicted_malformed_objects': js.get('harness_evicted_malformed_objects', 0),
     }
